@@ -54,6 +54,8 @@ var vpTypedKeys = []vpTypedKey{
 	{"!!bool", "True", "true"},
 	{"!!float", "1.5", "1.500000e+00"},
 	{"!!int", "31", "31"},
+	{"!!int", "010", "8"}, // a leading zero is octal in YAML 1.1 style integers
+	{"!!int", "8", "8"},
 }
 
 func vpKeyString(k *yaml.Node) string {
